@@ -31,6 +31,7 @@ FIX = [  # (substring of commit subject, property, key at the time, what failed)
  ('map parsing accepts', 'C15', 'map-empty-key', '"":"v" failed with unexpected colon'),
  ('flag and pflag sources panicked when Value was called a second time', 'C12', 'panic:sources/flag.(*Set).Value.func2', 'a flag (or pflag) Set asked for its Value a second time after a flag had been set on the command line (one Set handed to two Configs) panicked: field name N with flag n is nil'),
  ('alias-wrapped decoders panicked on an aliased field inside the elements', 'C14', 'panic:transform.(*AliasMangler).Unmangle', 'type Backend struct{ Port int `dials:"port" dialsalias:"p"` }; Cfg{ Backends []Backend } read through an alias-wrapped decoder (as ez builds one): AliasMangler.Unmangle called IsNil on the int field of a list element (element fields are not pointerified) and panicked'),
+ ('flag and pflag sources set user-declared pointer-to-pointer fields', 'C16', 'panic:types:flag-sources+ptr-to-ptr-leaves:(*Set).Value', 'flag and pflag sources registered a flag for a user-declared pointer-to-pointer field (Retries **int, Lvl **Level, Deep ***int) and panicked in (*Set).Value once it was given on the command line (--retries=3: reflect.Value.OverflowInt on ptr Value; Convert: int cannot be converted to **int)'),
  ('parse.String returns', 'C16', 'panic:named-scalar-env', 'type Level uint8 via env panicked (top level) or was silently dropped (nested)'),
  ('ReverseTranslate accepts a pointer', 'C20', 'crash:transform.(*Transformer).ReverseTranslate', 'an inner source or watcher (e.g. a Blank) handing a POINTER to the translated struct through a transforming source panicked (slice bounds out of range)'),
  ('a wrapped watching source', 'C20', 'wrapped-watcher-update-not-reversed', 'updates through NewTransformingSource reached the monitor in the mangled type'),
